@@ -12,6 +12,10 @@ Sub-explorations (all exhaustive products / all words up to a length):
   proc  : generator (x variant in the thorough tier): two subprocesses with different PYTHONHASHSEED build the model
           from the case JSON and print digests of primal / dual; equal to each other and to this process.
   assign: ro generators: expr(z.assign(arr)) after a solve for every variant of arr.
+  redecl: words X, R, Y with X, Y in {P, D, S_def, S_eco} and R a RE-declaration made after X (dro: probset new /
+          same, suppset new through fset[k] for all k / fset[k] / loc / iloc, an additional exptset, a further row;
+          ro / deterministic: a further (robust) row, a bound, forall() called again on a stated constraint): what
+          Y returns must be the program and the optimum of a FRESH build that makes the final declarations only.
 """
 import itertools
 import json
@@ -19,7 +23,7 @@ import os
 import subprocess
 import sys
 
-from ..ref.c08c18c19_c19models import GENS, VARIANTS, applicable
+from ..ref.c08c18c19_c19models import GENS, VARIANTS, applicable, REDECL, REDECL_CLS
 
 PROPERTY = 'C19'
 TIMEOUT = 120.0
@@ -74,6 +78,12 @@ def gen_cases(tier, seed):
         if g.startswith('ro_'):
             for v in ('f64', 'f32', 'i64', 'i32', 'strided', 'readonly'):
                 yield {'kind': 'assign', 'gen': g, 'variant': v}
+    for g, rl in REDECL.items():
+        xy = ['P', 'D', 'S_def', 'S_eco'] if REDECL_CLS[g] == 'lp' else ['P', 'D', 'S_eco']
+        for r in rl:
+            for x in xy:
+                for y in xy:
+                    yield {'kind': 'redecl', 'gen': g, 'r': r, 'x': x, 'y': y}
     for n in range(1, L + 1):
         for g, spec in GENS.items():
             for h in itertools.product(ALPHA[spec['cls']], repeat=n):
@@ -410,8 +420,101 @@ def run_proc(case):
             'states': 4, 'validated': 3, 'outcome': 'proc ok'}
 
 
+def _live_columns(S):
+    """Snapshot without dead columns (all-zero column, zero objective, in no cone) and without dead rows (all-zero
+    row with zero right-hand side - what a dead primal column becomes in the dual)."""
+    import numpy as np
+    cm = _rs['cm']
+    rows = np.any(S['linear'] != 0, axis=1) | (S['const'] != 0)
+    if not rows.all():
+        S = cm.deepcopy_snapshot(S)
+        S['linear'] = S['linear'][rows]
+        S['const'] = S['const'][rows]
+        S['sense'] = S['sense'][rows]
+        S['shape'] = (int(rows.sum()), S['shape'][1])
+    used = np.any(S['linear'] != 0, axis=0) | (S['obj'] != 0)
+    for q in S['qmat'] + S['xmat']:
+        used[q] = True
+    keep = np.flatnonzero(used)
+    remap = {int(j): i for i, j in enumerate(keep)}
+    T = cm.deepcopy_snapshot(S)
+    T['linear'] = S['linear'][:, keep]
+    for f in ('ub', 'lb', 'obj'):
+        T[f] = S[f][keep]
+    T['vtype'] = ''.join(S['vtype'][j] for j in keep)
+    T['qmat'] = [[remap[i] for i in q] for q in S['qmat']]
+    T['xmat'] = [[remap[i] for i in q] for q in S['xmat']]
+    T['shape'] = (S['shape'][0], len(keep))
+    return T, S['shape'][1] - len(keep)
+
+
+def run_redecl(case):
+    cm, M = _rs['cm'], _rs['M']
+    gen, r, X, Y = case['gen'], case['r'], case['x'], case['y']
+    cls = REDECL_CLS[gen]
+    tag = 'redecl|%s|%s' % (gen, r)
+    # ---- references: before the re-declaration, and a fresh build with the final declarations only
+    key = ('redecl', gen, r)
+    if key not in _ref:
+        ref = {}
+        for nm, fin in (('old', ()), ('new', (r,))):
+            m1, _ = M.redecl_build(gen, fin)
+            P = cm.snapshot(m1.do_math())
+            m2, _ = M.redecl_build(gen, fin)
+            D = cm.snapshot(m2.do_math(primal=False))
+            m3, _ = M.redecl_build(gen, fin)
+            m3.solve(_solver('eco'), display=False)
+            ok, v = _opt(m3, 'eco')
+            ref[nm] = {'P': P, 'D': D, 'obj': v if ok else None}
+        _ref[key] = ref
+    ref = _ref[key]
+    m, h = M.redecl_build(gen)
+    ops = 14
+    rng0 = _rng_state()
+    try:
+        do_step(m, X)
+        M.redecl_apply(h, r)
+        f, res = do_step(m, Y)
+    except Exception as ex:  # noqa
+        return {'status': 'violation', 'ops': ops, 'sig': '%s|%s,R,%s raises %s' % (tag, X[0], Y[0],
+                                                                                   type(ex).__name__),
+                'detail': str(ex)[:200]}
+    if _rng_state() != rng0:
+        return {'status': 'violation', 'ops': ops, 'sig': tag + '|global RNG state consumed', 'detail': ''}
+    differs = bool(cm.snap_diff(ref['old']['P'], ref['new']['P']))
+    which = 'D' if Y == 'D' else 'P'
+    got = cm.snapshot(f if Y in ('P', 'D') else m.do_math())
+    if Y not in ('P', 'D'):
+        ok, v = res
+        if ok and ref['new']['obj'] is not None and abs(v - ref['new']['obj']) > max(_tol(Y, cls, v), 1e-5 * (1 + abs(v))):
+            stale = ref['old']['obj'] is not None and abs(v - ref['old']['obj']) <= 1e-5 * (1 + abs(v))
+            return {'status': 'violation', 'ops': ops,
+                    'sig': '%s|Y=%s objective %s' % (tag, Y, 'is the one of BEFORE the re-declaration (stale cache)'
+                                                     if stale else 'differs from the fresh final build'),
+                    'detail': 'X=%s: %.9g, fresh final %.9g, before %s' % (X, v, ref['new']['obj'], ref['old']['obj'])}
+    d = cm.snap_diff(ref['new'][which], got)
+    if d:
+        gl, dead = _live_columns(got)
+        fl, dead_f = _live_columns(ref['new'][which])
+        if not cm.snap_diff(fl, gl):
+            return {'status': 'violation', 'ops': ops,
+                    'sig': '%s|Y=%s program grown: dead columns of the previous formulation are kept' % (tag, which),
+                    'detail': 'X=%s: shape %s instead of %s (dead columns %d, fresh %d); live part identical' % (
+                        X, got['shape'], ref['new'][which]['shape'], dead, dead_f)}
+        ol, _ = _live_columns(ref['old'][which])
+        stale = differs and not cm.snap_diff(ol, gl)
+        return {'status': 'violation', 'ops': ops,
+                'sig': '%s|Y=%s %s' % (tag, which, 'is the program of BEFORE the re-declaration (stale cache)' if stale
+                                       else 'differs from the fresh final build:' + cm.snap_field(d)),
+                'detail': 'X=%s: %s' % (X, d)}
+    return {'status': 'pass', 'ops': ops, 'nontrivial': differs, 'states': 3, 'validated': 1,
+            'outcome': 'redecl ok %s %s' % (cls, 'changes the program' if differs else 'same program')}
+
+
 def run_case(case):
     k = case['kind']
+    if k == 'redecl':
+        return run_redecl(case)
     if k == 'rep':
         return run_rep(case)
     if k == 'arr':
